@@ -1134,6 +1134,9 @@ class Distributions(object):
                                    [C01, C11, C12],
                                    [C02, C12, C22]])
 
+        # overall scale of the weights (for scale-independent rejection below)
+        wscale = 1 if self.weights is None else np.abs(self.weights).max()
+
         def invn(P):
             C = np.zeros((self.N, self.N))
             for m in range(self.N, 0, -1):
@@ -1141,7 +1144,8 @@ class Distributions(object):
                     Pi = inv(P[:m, :m])
                     # due to numerical errors, inv() might "succeed" even for
                     # some degenerate matrices, so try to reject them manually
-                    if np.max(Pi) > 1e14:  # (FP precision is only ~15 digits)
+                    # (FP precision is only ~15 digits)
+                    if np.max(Pi) * wscale > 1e14:
                         raise np.linalg.LinAlgError
                     C[:m, :m] = Pi  # (this is faster than np.pad)
                     return C
